@@ -100,8 +100,30 @@ def litNumRat (l : Lit) : Option (Num Rat) :=
     let v : Rat := if e ≥ 0 then m * ((10 ^ e.toNat : Nat) : Rat) else m / ((10 ^ e.natAbs : Nat) : Rat)
     some (.real (if l.neg then -v else v))
 
-def readNumFloat (s : List Nat) : Option (Num Float) := (readLit s).bind litNumFloat
-def readNumRat (s : List Nat) : Option (Num Rat) := (readLit s).bind litNumRat
+/-- `[+-]0x<hex digits>` / `0X…`: `Digit::StringToNumber` hands these to `HexStringToNumber` and
+answers Natural (the sign is ignored, no digit at all is 0, the value wraps at 64 bits) -/
+def readHex (s : List Nat) : Option Nat :=
+  let s := match s with
+    | 45 :: r => r | 43 :: r => r | _ => s
+  match s with
+  | 48 :: x :: rest =>
+    if x == 120 || x == 88 then
+      rest.foldlM (fun acc c =>
+        if 48 ≤ c ∧ c ≤ 57 then some ((acc * 16 + (c - 48)) % W64)
+        else if 65 ≤ c ∧ c ≤ 70 then some ((acc * 16 + (c - 55)) % W64)
+        else if 97 ≤ c ∧ c ≤ 102 then some ((acc * 16 + (c - 87)) % W64)
+        else none) 0
+    else none
+  | _ => none
+
+def readNumFloat (s : List Nat) : Option (Num Float) :=
+  match readHex s with
+  | some n => some (.nat n)
+  | none => (readLit s).bind litNumFloat
+def readNumRat (s : List Nat) : Option (Num Rat) :=
+  match readHex s with
+  | some n => some (.nat n)
+  | none => (readLit s).bind litNumRat
 
 /-! ### variables -/
 
